@@ -320,6 +320,7 @@ pub fn run(plan: &Plan) -> RunOut {
     probes.extra.insert("payloads_decoded", n_eval);
     probes.extra.insert("payloads_probed_in_child_process", n_child);
     RunOut {
+        log: Vec::new(),
         violations: viol,
         probes,
         counters: FaultCounters::default(),
